@@ -644,11 +644,25 @@ package larking
 //@        && (forall x :: off(params) + len(queryParams) <= x && x < off(params) + len(params)
 //@              ==> same(at(params, x), at(pp, x - off(params) - len(queryParams) + off(pp))))
 
-// (frame and non-nil result assumed at call sites: the children map holds no nil node)
-//@ func (*path).addPath serves C01 C16 trusted partial ghost
-//@   requires p != nil
+// TrieOk: the representation invariant that makes walking the trie nil-safe.
+// Every trie node has its two maps, no child segment is nil, no variable entry is
+// nil (that part stays in TrieWf, an assumption of the matcher) and every variable
+// has a subtree. It is established by newPath (for the node it creates; that clone
+// preserves it is not proved: a variable node exists without its subtree while the
+// recursive call runs, which needs a reachability-based invariant) and
+// preserved by addPath, addVariable and addRule on every return, error returns included.
+// The quantifiers range over the objects allocated as trie / variable nodes
+// (dyn(r) is the type tag an object receives when it is allocated; a non-nil
+// *path points to one); they are flat, so aliasing between nodes need not be excluded.
+//@ spec TrieOk() = (forall r :: {dyn(r)} r > 0 && dyn(r) == tid("path") ==> ptr(r, "path").segments != nil && ptr(r, "path").methods != nil)
+//@      && (forall r, k :: {dyn(r), maphas(ptr(r, "path").segments, k)} r > 0 && dyn(r) == tid("path") && maphas(ptr(r, "path").segments, k) ==> mapval(ptr(r, "path").segments, k) != nil)
+//@      && (forall v :: {dyn(v)} v > 0 && dyn(v) == tid("variable") ==> ptr(v, "variable").next != nil)
+
+//@ func (*path).addPath serves C01 C16 C09
+//@   requires p != nil && TrieOk()
 //@   modifies M$
-//@   ensures result != nil
+//@   ensures [child-exists C16 C09] result != nil
+//@   ensures [trie-stays-walkable C16 C09] TrieOk()
 //@   assert at "if next, ok := p.segments[val]; ok {" [edge-key C01] len(val) == len(parent.val) + len(value.val)
 //@        && (forall k :: 0 <= k && k < len(parent.val) ==> val[k] == parent.val[k])
 //@        && (forall k :: 0 <= k && k < len(value.val) ==> val[len(parent.val) + k] == value.val[k])
@@ -724,15 +738,20 @@ package larking
 // search tries them is a function of the set of patterns, not of the
 // registration order (C02).
 //@ spec SortedVars(vs) = forall x :: {at(vs, x)} off(vs) <= x && x < off(vs) + len(vs) - 1 ==> !strlt(at(vs, x+1).name, at(vs, x).name)
+// (assumed: the variable list of a node holds no nil entry - the part of the trie
+// invariant that stays an assumption, see TrieWf)
 //@ func (*path).findVariable trusted pure
 //@   returns (v, ok)
 //@   ensures ok ==> v != nil
 //@ func newPath serves C12 C16
+//@   ensures [trie-stays-walkable C16 C09] old(TrieOk()) ==> TrieOk()
 //@   ensures [fresh-node C12] result != nil && isfresh(result) && result.segments != nil && result.methods != nil && isfresh(result.segments) && isfresh(result.methods) && result.segments != result.methods
 //@   ensures [empty-node C16] maplen(result.segments) == 0 && maplen(result.methods) == 0 && len(result.variables) == 0 && result.methodAll == nil
 //@   ensures [no-children C16] (forall k :: !maphas(result.segments, k)) && (forall k :: !maphas(result.methods, k))
-//@ func (*path).addVariable serves C02 C01 C16
+//@ func (*path).addVariable serves C02 C01 C16 C09
 //@   requires p != nil && SortedVars(p.variables)
+//@   requires [walkable] TrieOk()
+//@   ensures [trie-stays-walkable C16 C09] TrieOk() && result.next != nil
 //@   requires [pattern] PatWf(toks)
 //@   ensures [new-variable-well-formed C01 C02] at "return v" #2 VarWf(v#2) && v#2.next != nil
 //@   modifies F$path.variables, E$P_variable
@@ -995,23 +1014,25 @@ package larking
 // singular message field (a registered method's selectors never panic later).
 //@ spec AllSingular(fds) = forall y :: {at(fds, y)} off(fds) <= y && y < off(fds) + len(fds) ==> at(fds, y) != nil && SingularMsg(at(fds, y))
 // (recursion for additional bindings: the frame is assumed at the call site)
-//@ func (*path).addRule serves C16 C11 C04 C01 trusted partial ghost index slice inv.init inv.keep pre[(*path).addRule$ pre[(*path).addVariable#1.pattern pre[(*path).addVariable#2.pattern
+//@ func (*path).addRule serves C16 C11 C04 C01 trusted partial ghost index slice inv.init inv.keep pre[(*path).addRule$ pre[(*path).addVariable#1.pattern pre[(*path).addVariable#2.pattern pre[(*path).addVariable#1.walkable pre[(*path).addVariable#2.walkable pre[(*path).addPath nil[cursor nil[v.next post pre[(*path).addRule#1.walkable
 //@   requires p != nil && rule != nil && desc != nil
+//@   requires [walkable] TrieOk()
+//@   ensures [trie-stays-walkable C16 C09] TrieOk()
 //@   modifies M$, F$path., F$variable., F$method., E$P_variable
-//@   loop 4 invariant -1 <= rangeindex && rangeindex < len(rule.AdditionalBindings)
+//@   loop 4 invariant -1 <= rangeindex && rangeindex < len(rule.AdditionalBindings) && TrieOk()
 //@   witness verifWitnessReRegister
-//@   loop 1 invariant W(l) && 0 <= i && i < l.len && tok.typ == l.toks[i].typ && (St(l, i) == 1 || St(l, i) == 3)
+//@   loop 1 invariant W(l) && 0 <= i && i < l.len && tok.typ == l.toks[i].typ && (St(l, i) == 1 || St(l, i) == 3) && TrieOk() && cursor != nil
 //@   assert at "switch val := next(); val.typ {" [walk C16] St(l, i + 1) == 2 && i + 1 < l.len
 //@   assert at "v := cursor.addVariable(l.toks[i : i+1])" [walk C16] St(l, i + 1) == 3 && i + 1 < l.len
 //@   assert at "cursor = cursor.addPath(tok, val)" [walk C16] St(l, i + 1) == 3 && i + 1 < l.len
 //@   assert at "tok := next()" [walk C16] St(l, i + 1) == 4 && i + 1 < l.len
 //@   assert at "nxt := next()" [walk C16] St(l, i + 1) == 5 && i + 1 < l.len
-//@   loop 2 invariant W(l) && 0 <= i && i < l.len && nxt.typ == l.toks[i].typ && St(l, i) == 5
+//@   loop 2 invariant W(l) && 0 <= i && i < l.len && nxt.typ == l.toks[i].typ && St(l, i) == 5 && TrieOk() && cursor != nil
 //@   assert at "keys = append(keys, next().val)" [walk C16] St(l, i + 1) == 6 && i + 1 < l.len
 //@   assert at "nxt = next()" [walk C16] St(l, i + 1) == 5 && i + 1 < l.len
 //@   assert at "switch nxt.typ {" [walk C16] St(l, i + 1) != 0
 //@   assert at "for nxt := next(); nxt.typ != tokenVariableEnd; nxt = next() {" [walk C16] St(l, i + 1) == 7 && i + 1 < l.len
-//@   loop 3 invariant W(l) && 0 <= i && i < l.len && nxt#2.typ == l.toks[i].typ && (St(l, i) == 7 || St(l, i) == 8) && base(vars) >= 0 && PatPre(vars, St(l, i))
+//@   loop 3 invariant W(l) && 0 <= i && i < l.len && nxt#2.typ == l.toks[i].typ && (St(l, i) == 7 || St(l, i) == 8) && base(vars) >= 0 && PatPre(vars, St(l, i)) && TrieOk() && cursor != nil
 //@   assert at "vars = append(vars, nxt)" [walk C16] (St(l, i + 1) == 7 || St(l, i + 1) == 8) && i + 1 < l.len
 //@   assert at "fds := fieldPath(fieldDescs, keys...)" [walk C16] St(l, i + 1) == 3 && i + 1 < l.len
 //@   assert at "switch tok.typ {" [walk C16] St(l, i) == 3 && St(l, i + 1) != 0
